@@ -62,6 +62,7 @@ def cases(tier, seed):
             for sd in range(3 if thorough else 2):
                 recs.append(['named', 'late_merge_k', n, k, seed * 10 + sd])
     recs += G.blob_chains(300 if thorough else 100)
+    recs += [['named', 'lollipop', 40, 260], ['disjoint', ['named', 'lollipop', 30, 160], ['named', 'path', 3]]]   # dense part and far tail in one component
     for t in range(600 if thorough else 200):
         n = int(rs.randint(10, 90))
         recs.append(['named', 'late_hub_tree', n, int(rs.randint(1 << 30))])
